@@ -14,6 +14,7 @@ LEN_EQ = [10, 10, 10, 10]
 LEN_UNEQ = [10, 7, 9, 8]
 LEN_ONE = [1, 1, 1, 1]                  # a single frame
 LEN_BLOCK1 = [2049, 2049, 2049, 2049]   # one frame more than the transcoder's 4096-byte block
+LEN_FRAG = [9000, 9000, 9000, 9000]     # three sectors each, stored on chains with backward links (see akai_image)
 
 
 AKAI_RATES = [44100, 22050, 32000, 48000]
@@ -23,7 +24,14 @@ ROLAND_FREQS = [1, 3, 2, 0]
 def akai_image(names, lens, rates="same", hdr=None):
     files = []
     for i, (nm, n) in enumerate(zip(names, lens)):
-        files.append({"name": nm, "n": n, "chain": [4 + i], "seq": i + 1, "rate": AKAI_RATES[i % 4] if rates == "diff" else 44100})
+        ch = [4 + i]
+        if n > 4026:
+            # multi-sector files on fragmented chains, each in another order (head highest / zigzag / head lowest but crossing)
+            m = A.needed_sectors(140 + 2 * n)
+            base = 4 + 3 * i
+            ch = [[base + 2, base, base + 1], [base + 1, base + 2, base], [base, base + 2, base + 1], [base + 2, base + 1, base]][i % 4][:m] \
+                if m == 3 else [base + 1, base]
+        files.append({"name": nm, "n": n, "chain": ch, "seq": i + 1, "rate": AKAI_RATES[i % 4] if rates == "diff" else 44100})
         # the name stored INSIDE the sample header is not the sibling name (file renamed / copied on the sampler): the
         # directory names decide
         if hdr == "rot":
@@ -127,7 +135,7 @@ def big_names(n, i, j, rev=False):
 
 def run_case(case):
     names = case["names"] if "big" not in case else big_names(*case["big"])
-    lens = {"eq": LEN_EQ, "uneq": LEN_UNEQ, "one": LEN_ONE, "block1": LEN_BLOCK1}[case["lens"]]
+    lens = {"eq": LEN_EQ, "uneq": LEN_UNEQ, "one": LEN_ONE, "block1": LEN_BLOCK1, "frag": LEN_FRAG}[case["lens"]]
     if len(names) > len(lens):
         lens = (list(lens) * (len(names) // len(lens) + 1))[:len(names)]
     if "big" in case:
@@ -151,7 +159,7 @@ class Check(CheckBase):
     rule = ("all ordered k-tuples of sibling names (every ordering of every multiset) over a near-collision alphabet: AKAI "
             "volume, 14 names, k<=3 (quick) / k<=4 (thorough), plus all 4-tuples over the reduced 6-name alphabet and over {A-L, A -R, A -L, A-R}; pair stems covering every letter and digit; 3-tuples over {A, A., A L, A R, A. L, A. R} and all orders of the two dotted / undotted pairs; Roland "
             "performance, 13 names (incl. stems that differ only in the length of a blank run, lower-case 'l' / 'r' endings, which are not L/R forms), k<=2 (quick) / k<=3 (thorough); equal lengths (10 frames), and unequal lengths, differing sample "
-            "rates, single-frame samples and samples of 2049 frames (one more than the transcoder block) for k<=2 (quick) / "
+            "rates, single-frame samples, samples of 2049 frames (one more than the transcoder block) and AKAI samples of 3 sectors on fragmented chains with backward links for k<=2 (quick) / "
             "all (thorough); AKAI header names that differ from the directory names (rotated among the siblings / 'DRUM L', 'DRUM R'), S1000- and S3000-type samples mixed in one volume, "
             "for k<=2 over 14 names and k=3 over 6; 2- and 3-tuples over 8 names that become an L/R form only when a trailing dot / blank is "
             "dropped (conservation only: nothing lost, nothing written twice); large directories: 201 AKAI siblings (70 Roland) with an L/R pair at every pair of adjacent positions "
@@ -177,6 +185,10 @@ class Check(CheckBase):
             for t in itertools.product(AKAI_NAMES if k < 3 else AKAI_N4, repeat=k):
                 for hdr in ("rot", "lr", "flavours"):
                     cases.append({"fmt": "akai", "names": list(t), "lens": "eq", "hdr": hdr})
+        # multi-sector halves on fragmented chains with backward links (a pair must come out whole, both halves complete)
+        for k in (1, 2, 3):
+            for t in itertools.product(AKAI_N4, repeat=k):
+                cases.append({"fmt": "akai", "names": list(t), "lens": "frag"})
         # names that become an L/R form only after sanitising (trailing dot / blank dropped), every order, next to real forms
         san = ["A-L .", "A-R .", "A-L.", "A L .", "A-R", "A-L", "A .", "A"]
         for k in (2, 3):
